@@ -145,7 +145,15 @@ theorem coupled_afterRead (u : User) (s : St) (id sz : Nat) (kbuf0 : List Byte) 
   | err e =>
     simp only [KOk] at hk
     simp only [afterRead]
-    sorry
+    have hneg : (-(e : Int)) < 0 := by omega
+    have hne : ¬ (-(e : Int)) = -4095 := by
+      intro hh; sorry
+    have hc : Coupled true (callReadCb u { s with readable := false, writable := false } (-(e : Int)) (some id) []) := by
+      apply coupled_callReadCb
+      constructor <;> simp_all [emit, mon_append, Mon.step, quieting, UV_ENOBUFS, UV_EOF]
+    obtain ⟨c1, c2, c3, c4, c5, c6, c7, c8⟩ := hc
+    simp only [if_true] at c8
+    split <;> (constructor <;> simp_all)
   | eof =>
     simp only [KOk] at hk
     simp only [afterRead, streamEof]
@@ -154,7 +162,14 @@ theorem coupled_afterRead (u : User) (s : St) (id sz : Nat) (kbuf0 : List Byte) 
   | data bs =>
     simp only [KOk] at hk
     simp only [afterRead]
-    sorry
+    have hpos : (0 : Int) < (bs.length : Int) := by
+      have : bs.length ≠ 0 := by intro h0; exact hk.1 (List.length_eq_zero_iff.mp h0)
+      omega
+    have hc : Coupled false (callReadCb u s bs.length (some id) bs) := by
+      apply coupled_callReadCb
+      obtain ⟨k1, k2, k3⟩ := hk
+      constructor <;> simp_all [emit, mon_append, Mon.step, quieting, UV_ENOBUFS, UV_EOF]
+    split <;> exact hc
 
 theorem coupled_readRound (u : User) (s : St) (h : Coupled false s) (hr : s.reading = true) :
     Coupled false (readRound u s).1 := by
